@@ -539,7 +539,7 @@ hash; the rest of the arm (`emit_tag`, if any, and the transition) follows -/
 theorem relex_step_fin (hrel : RelexOk env.tbl L TT S = true)
     {G : RG} (hG : RGOk env.tbl L S G) {c : Common} {l : LexRegs} {x : Ctx κ}
     (h : RelexHead env.tbl L G inp c l G.H) :
-    (∃ e, (stateFn env inp (⟨c, .lexer l, x⟩ : M κ)).2 = some (.err e) ∧
+    ((stateFn env inp (⟨c, .lexer l, x⟩ : M κ)).2 = some (.err (.panic "debug_assert: End tag should exist at this point")) ∧
       (stateFn env inp (⟨c, .lexer l, x⟩ : M κ)).1.x = x) ∨
     (∃ (l1 : LexRegs) (q : ActSeq) (A' : Arm), selArm env.tbl G.sfin G.term = some A' ∧ q ∈ A'.body.seqs ∧
       finishCalls q.calls = true ∧ c.state = G.sfin ∧
